@@ -30,6 +30,11 @@ def act(k, h=(), st=0, b="", p="", ho="", q="", rm=()):
     return {"k": k, "h": [list(x) for x in h], "st": st, "b": b, "p": p, "ho": ho, "q": q, "rm": list(rm)}
 
 
+def nilify(rng, a):
+    """an action that sets no header is built with a nil map (as processors do) half of the time"""
+    return dict(a, nilh=True) if not a["h"] and a["k"] != "noop" and rng.random() < 0.5 else a
+
+
 def rand_req_action(rng, early_w):
     x = rng.random()
     if x < 0.15:
@@ -57,8 +62,9 @@ def rand_resp_action(rng):
 def rand_routing_case(rng, maxlen):
     n = rng.randint(0, maxlen)
     if rng.random() < 0.6:
-        return {"side": "req", "via": "routing", "seq": [rand_req_action(rng, rng.choice([0.0, 0.0, 0.1, 0.3])) for _ in range(n)]}
-    return {"side": "resp", "via": "routing", "seq": [rand_resp_action(rng) for _ in range(n)]}
+        w = rng.choice([0.0, 0.0, 0.1, 0.3])
+        return {"side": "req", "via": "routing", "seq": [nilify(rng, rand_req_action(rng, w)) for _ in range(n)]}
+    return {"side": "resp", "via": "routing", "seq": [nilify(rng, rand_resp_action(rng)) for _ in range(n)]}
 
 
 TOK = [["x-key", "k1"], ["x-key", "k2"], ["x-org", "o1"], ["early-response", "true"], ["x-a", "1"], ["x-a", "9"]]
@@ -127,7 +133,10 @@ def witness_of(e):
     o = e["out"]
     shown = "early" if o["early"] else "modresp" if o["modresp"] else "retry" if o["retry"] else \
         ("noop" if not o["names"] else "request-modification")
-    return {"class": "combined-%s-action-not-permitted" % ("request" if e["ev"] == "req" else "response"), "via": e["via"],
+    cls = "combined-%s-action-not-permitted" % ("request" if e["ev"] == "req" else "response")
+    if any(b.startswith("panic") for b in o["bad"]):
+        cls = "fold-panics-no-%s-action" % ("request" if e["ev"] == "req" else "response")
+    return {"class": cls, "via": e["via"], "nil_header_maps_at": e.get("nil_positions", []),
             "kinds": kinds, "result": shown, "seq": e["seq"], "out": {k: v for k, v in o.items() if k != "scopes"}}
 
 
@@ -276,6 +285,16 @@ def run(ctx):
             gen_cases_first = cases
     ctx.cov["exhaustive"] = True
     ctx.notes.append("generated input space replayed completely: %d cases" % total_gen)
+
+    # (2a) the generated cases in which some action sets no header, again with those header maps nil instead of empty (processors
+    # build such actions with a nil map): nil / empty / non-empty in every position of every table cell
+    nc = [dict(c, nil_empty=True) for c in gen_cases_first if any(a["k"] != "noop" and not a["h"] for a in c["seq"])]
+    for i, c in enumerate(nc):
+        c["id"] = i
+    events = execute(ctx, binary, nc, "gennil")
+    rej = judge(ctx, binary, nc, events, "gennil", seen)
+    ctx.log("generated cases with nil header maps: %d, %d rejected" % (len(nc), len(rej)))
+    ctx.notes.append("generated cases re-executed with nil instead of empty header maps: %d" % len(nc))
 
     # (2b) histories: the generated cases again, in seeded random order, five folds per history drawing their actions from one
     # pool (equal values = the same action instance / the same header map object), then random histories over small pools.
